@@ -348,6 +348,7 @@ static int read_until(Endpoint *ep, int dir, uint64_t target, uint64_t rbuf_max,
 			if (ep->recv_errs > 6) { io_fail(ep, "recv ret=%d after %llu bytes", ret, (unsigned long long)ep->got[dir]); return -1; }
 			continue;
 		}
+		if (got == 0 && ep->plan->proto == P_TLS13 && (ep->plan->cred_mode & 256)) continue;    /* the peer's empty record: zero bytes, successfully */
 		if (got == 0 || got > want) { io_fail(ep, "len_exceeds: recvlen=%zu outlen=%zu", got, want); return -2; }
 		for (int g = 0; g < GUARD; g++)
 			if (buf[g] != 0xEE || buf[GUARD + want + g] != 0xEE) { io_fail(ep, "len_exceeds: guard bytes overwritten"); return -2; }
@@ -443,6 +444,13 @@ void ep_task(void *arg)
 			break;
 		}
 		int writes = (r->mode == RM_DUPLEX) || (r->mode == RM_C2S && ep->side == 0) || (r->mode == RM_S2C && ep->side == 1);
+		if (writes && p->proto == P_TLS13 && (p->cred_mode & 256) && r->n[me_out] > 0) {
+			/* a byte sequence of length zero is a byte sequence: an empty application-data record goes out first;
+			 * the reader never notices it */
+			size_t sent = 77;
+			uint8_t none = 0;
+			if (tls13_send(ep->conn, &none, 0, &sent) != 1 || sent != 0) { io_fail(ep, "send of 0 bytes: sent=%zu", sent); broken = 1; }
+		}
 		int reads = (r->mode == RM_DUPLEX) || (r->mode == RM_C2S && ep->side == 1) || (r->mode == RM_S2C && ep->side == 0);
 		if (writes && r->n[me_out] > 0)
 			if (do_write(ep, me_out, (uint64_t)r->n[me_out], (uint64_t)r->wchunk[me_out]) != 0) broken = 1;
